@@ -5,7 +5,8 @@ PROPS["C18"] = P(
     "lowest/highest signature of every shard and bucket) x signature types [u64;1],[u64;2] x value types u8,u64,usize,EmptyVal; each store is pushed, turned into a shard store, "
     "iterated borrowed twice and then consumed (other plans: abandoned borrowed iteration first, consuming only, borrowed then consuming), every iteration compared with the pushed Vec "
     "(number of shards, shard of every pair = top bits computed by shifting, per-shard multiset, union, shard_sizes vs model counts and vs yielded lengths, len). "
-    "distinct_nontrivial = distinct (mode, bit triple, multiset class + plan, type combination) cells in which at least one pair was pushed",
+    "distinct_nontrivial = distinct (mode, bit triple, multiset class + plan, type combination) cells in which at least one pair was pushed"
+    ' Borrowed iteration also through nth / step_by / skip. ',
     dict(builds=["DBG", "UBC"]),
     dict(builds=["DBG", "UBC", "ASAN", "MIRI"], shards={"MIRI": 6, "ASAN": 4, "DBG": 3, "UBC": 3}),
     hang="violation",
